@@ -9,7 +9,7 @@ from ..bench_battery import gen_bench, run_bench
 from ..worldprop import base_outcome, completion
 
 ID = "C03"
-RUNS = {"quick": 40000, "thorough": 900000}
+RUNS = {"quick": 80000, "thorough": 900000}
 BUDGET = {"quick": 45, "thorough": 780}
 CHUNK = 1000
 DET_EVERY = 400
